@@ -125,7 +125,7 @@ Lemma group_from_ne : forall ps i gs,
   Forall (fun g : pgroup => snd (fst g) <> []) (group_from ps i gs).
 Proof.
   induction ps as [|p r IH]; intros i gs H; [exact H|].
-  simpl. destruct (p =? pos_not_found); [apply IH; exact H|].
+  cbn [group_from]. destruct (p =? pos_not_found); [apply IH; exact H|].
   destruct (unpack_pos p) as [blk off]. apply IH. apply add_to_group_ne. exact H.
 Qed.
 
@@ -137,3 +137,210 @@ Proof.
   specialize (F _ Hi). simpl in F. intros R. apply F.
   destruct os as [|x os]; [reflexivity|]. simpl in R. destruct (rev os); discriminate.
 Qed.
+
+(* ------------------------------------------------------------------ 3. IndexFetch *)
+Section Assumed.
+  Hypothesis raw_pos_arith : forall b off, off <= max_doc_offset -> raw_pos b off = b * 1073741824 + off + 1.
+  Hypothesis pack_unpack : forall b off, b < two32 -> off <= max_doc_offset ->
+    pack_pos b off = Ok (raw_pos b off) /\ unpack_pos (raw_pos b off) = (b, off) /\ raw_pos b off <> pos_not_found /\ raw_pos b off <> 0.
+  Hypothesis raw_pos_inj : forall b1 o1 b2 o2, o1 <= max_doc_offset -> o2 <= max_doc_offset -> raw_pos b1 o1 = raw_pos b2 o2 -> b1 = b2 /\ o1 = o2.
+  Hypothesis group_offsets_spec : forall ps,
+    let gs := group_offsets ps in
+    NoDup (map (fun g : N * list N * list N => fst (fst g)) gs) /\
+    (forall b offs idx, In (b, offs, idx) gs -> length offs = length idx) /\
+    (forall i p, nth_error ps i = Some p -> p <> pos_not_found ->
+       exists offs idx j, In (fst (unpack_pos p), offs, idx) gs /\
+                          nth_error offs j = Some (snd (unpack_pos p)) /\ nth_error idx j = Some (N.of_nat i)) /\
+    (forall b offs idx j o i, In (b, offs, idx) gs -> nth_error offs j = Some o -> nth_error idx j = Some i ->
+       exists p, nth_error ps (N.to_nat i) = Some p /\ p <> pos_not_found /\ unpack_pos p = (b, o)) /\
+    NoDup (flat_map (fun g : N * list N * list N => snd g) gs).
+  Hypothesis active_pos_packed : forall k apos x b off, b < two32 -> off <= max_doc_offset ->
+    PositiveMap.find (key x) apos = Some (raw_pos b off) -> active_pos k apos x = if k <=? b then pos_not_found else raw_pos b off.
+  Hypothesis build_ptab_find : forall l i t k, PositiveMap.find (ikey k) (build_ptab l i t) =
+    if (i <=? k) && (k <? i + N.of_nat (length l)) then nth_error l (N.to_nat (k - i)) else PositiveMap.find (ikey k) t.
+  Hypothesis pos_by_lids_ok : forall g ptab lids prev, 1 <= ipb g ->
+    Forall (fun l => l < N.of_nat (length ptab)) lids -> (forall pi ps, prev = Some (pi, ps) -> ps = pi * ipb g) ->
+    pos_by_lids g (build_ptab ptab 0 (PositiveMap.empty _)) (N.of_nat (length ptab)) prev lids =
+    Ok (map (fun l => if l =? 0 then pos_not_found else nth (N.to_nat l) ptab 0) lids).
+
+  (* processor.IndexFetch: when every found position points into the block offsets table and ReadDocs returns
+     the documents at the requested offsets of a block, the result holds, per request index, the document at
+     its position (None for DocPosNotFound) *)
+  Lemma index_fetch_ok : forall (D : Type) (boffs : list N) (read : N -> list N -> res (list D)) (ps : list N)
+                                (want : N -> N -> D),
+    (forall p, In p ps -> p <> pos_not_found ->
+       exists bo, nth_error boffs (N.to_nat (fst (unpack_pos p))) = Some bo) ->
+    (forall b bo offs, nth_error boffs (N.to_nat b) = Some bo ->
+       (forall o, In o offs -> exists p, In p ps /\ p <> pos_not_found /\ unpack_pos p = (b, o)) ->
+       read bo offs = Ok (map (want b) offs)) ->
+    index_fetch boffs read ps =
+    Ok (map (fun p => if p =? pos_not_found then None
+                      else Some (want (fst (unpack_pos p)) (snd (unpack_pos p)))) ps).
+  Proof.
+    intros D boffs read ps want H1 H2. unfold index_fetch.
+    pose proof (group_offsets_spec ps) as G. cbv zeta in G. destruct G as [_ [G2 [G3 [G4 _]]]].
+    assert (Hsrc : forall b offs idx, In (b, offs, idx) (group_offsets ps) ->
+              forall o, In o offs -> exists p, In p ps /\ p <> pos_not_found /\ unpack_pos p = (b, o)).
+    { intros b offs idx Hg o Ho. destruct (In_nth_error _ _ Ho) as [j Hj].
+      destruct (nth_error idx j) as [i|] eqn:Ei.
+      - destruct (G4 b offs idx j o i Hg Hj Ei) as [p [P1 [P2 P3]]]. exists p.
+        split; [eapply nth_error_In; exact P1|]. split; assumption.
+      - exfalso. apply nth_error_None in Ei. rewrite <- (G2 b offs idx Hg) in Ei.
+        assert (nth_error offs j <> None) by congruence. apply nth_error_Some in H. lia. }
+    rewrite (fetch_groups_ok boffs read want).
+    2:{ intros b offs idx Hg. split; [apply (G2 b offs idx Hg)|].
+        pose proof (group_offsets_ne ps b offs idx Hg) as Hne.
+        destruct offs as [|o0 offs']; [congruence|].
+        destruct (Hsrc b _ idx Hg o0 (or_introl eq_refl)) as [p [P1 [P2 P3]]].
+        destruct (H1 p P1 P2) as [bo Hbo]. rewrite P3 in Hbo. simpl in Hbo.
+        exists bo. split; [exact Hbo|]. apply H2; [exact Hbo|]. apply (Hsrc b _ idx Hg). }
+    f_equal. apply read_arr_spec. intros k p Hk. rewrite N.add_0_l.
+    destruct (p =? pos_not_found) eqn:E.
+    - apply N.eqb_eq in E.
+      apply (fold_find_inv (gwrites want (group_offsets ps)) (PositiveMap.empty D) (N.of_nat k) (fun o => o = None)).
+      + apply PositiveMap.gempty.
+      + intros d Hd. exfalso. apply in_gwrites in Hd.
+        destruct Hd as [b [offs [idx [j [o [Hg [Hi [Ho _]]]]]]]].
+        destruct (G4 b offs idx j o _ Hg Ho Hi) as [p' [P1 [P2 _]]].
+        rewrite Nat2N.id in P1. congruence.
+    - apply N.eqb_neq in E. apply fold_find_some.
+      + destruct (G3 k p Hk E) as [offs [idx [j [Hg [Ho Hi]]]]].
+        apply in_gwrites. exists (fst (unpack_pos p)), offs, idx, j, (snd (unpack_pos p)). auto.
+      + intros d Hd. apply in_gwrites in Hd.
+        destruct Hd as [b [offs [idx [j [o [Hg [Hi [Ho Hd]]]]]]]].
+        destruct (G4 b offs idx j o _ Hg Ho Hi) as [p' [P1 [_ P3]]].
+        rewrite Nat2N.id in P1. rewrite Hk in P1. inversion P1; subst p'. rewrite P3. exact Hd.
+  Qed.
+
+  (* ---------------------------------------------------------------- 4. the physical layout *)
+  Lemma split_blocks_concat : forall (A : Type) sp (l : list A), concat (split_blocks sp l) = l.
+  Proof.
+    induction sp as [|n r IH]; intros l.
+    - destruct l; simpl; [reflexivity|rewrite app_nil_r; reflexivity].
+    - simpl. rewrite IH. apply firstn_skipn.
+  Qed.
+
+  (* inside a block: the position stored for a document and the cell the block holds at that offset *)
+  Lemma block_in : forall b blk o0 x d, In (x, d) blk ->
+    exists o, In (x, raw_pos b o) (block_positions b o0 blk) /\ assoc o (cells_from o0 blk) = Some d /\
+              o0 <= o /\ o + 4 + snd d <= o0 + block_size blk.
+  Proof.
+    induction blk as [|[x0 d0] r IH]; intros o0 x d H; [contradiction|].
+    destruct H as [H|H].
+    - inversion H; subst. exists o0. cbn [block_positions cells_from assoc block_size]. rewrite N.eqb_refl.
+      split; [left; reflexivity|]. split; [reflexivity|lia].
+    - destruct (IH (o0 + 4 + snd d0) x d H) as [o [A [B [C E]]]]. exists o.
+      cbn [block_positions cells_from assoc block_size]. split; [right; exact A|].
+      replace (o0 =? o) with false by (symmetry; apply N.eqb_neq; lia). split; [exact B|lia].
+  Qed.
+
+  Lemma block_offsets_length : forall blks bo0, length (block_offsets bo0 blks) = length blks.
+  Proof. induction blks as [|b r IH]; intros bo0; [reflexivity|]. simpl. rewrite IH. reflexivity. Qed.
+
+  (* the file offset of block bi and the decoded block found there *)
+  Lemma block_at : forall blks bo0 bi blk, nth_error blks bi = Some blk ->
+    exists bo, nth_error (block_offsets bo0 blks) bi = Some bo /\
+               assoc bo (combine (block_offsets bo0 blks) (map (cells_from 0) blks)) = Some (cells_from 0 blk) /\
+               bo0 <= bo.
+  Proof.
+    induction blks as [|b0 r IH]; intros bo0 bi blk H; [destruct bi; discriminate|].
+    destruct bi as [|bi].
+    - simpl in H. inversion H; subst. exists bo0. cbn [block_offsets map combine assoc nth_error].
+      rewrite N.eqb_refl. split; [reflexivity|]. split; [reflexivity|lia].
+    - simpl in H. destruct (IH (bo0 + 33 + block_size b0) bi blk H) as [bo [A [B C]]]. exists bo.
+      cbn [block_offsets map combine assoc nth_error]. split; [exact A|].
+      replace (bo0 =? bo) with false by (symmetry; apply N.eqb_neq; lia). split; [exact B|lia].
+  Qed.
+
+  Lemma layout_in : forall blks b0 bi blk e, nth_error blks bi = Some blk ->
+    In e (block_positions (b0 + N.of_nat bi) 0 blk) -> In e (layout_positions b0 blks).
+  Proof.
+    induction blks as [|blk0 r IH]; intros b0 bi blk e H Hi; [destruct bi; discriminate|].
+    cbn [layout_positions]. apply in_or_app. destruct bi as [|bi].
+    - simpl in H. inversion H; subst. left. simpl in Hi. rewrite N.add_0_r in Hi. exact Hi.
+    - right. simpl in H. apply (IH (b0 + 1) bi blk e H).
+      replace (b0 + 1 + N.of_nat bi) with (b0 + N.of_nat (S bi)) by lia. exact Hi.
+  Qed.
+
+  Lemma fst_block_positions : forall b blk o, map fst (block_positions b o blk) = map fst blk.
+  Proof. induction blk as [|[x d] r IH]; intros o; [reflexivity|]. simpl. rewrite IH. reflexivity. Qed.
+
+  Lemma fst_layout_positions : forall blks b, map fst (layout_positions b blks) = map fst (concat blks).
+  Proof.
+    induction blks as [|blk r IH]; intros b; [reflexivity|].
+    simpl. rewrite !map_app, fst_block_positions, IH. reflexivity.
+  Qed.
+
+  (* DocsPositions *)
+  Lemma build_apos_in : forall l x p, NoDup (map fst l) -> Forall (fun y : id => snd y <= max64) (map fst l) ->
+    In (x, p) l -> PositiveMap.find (key x) (build_apos l) = Some p.
+  Proof.
+    induction l as [|[x0 p0] r IH]; intros x p Hn Hf Hi; [contradiction|].
+    simpl in *. inversion Hn; subst. inversion Hf; subst. destruct Hi as [Hi|Hi].
+    - inversion Hi; subst. apply PositiveMap.gss.
+    - rewrite PositiveMap.gso; [apply IH; assumption|].
+      intros E. apply key_inj in E.
+      + subst x0. apply H1. apply (in_map fst) in Hi. exact Hi.
+      + rewrite Forall_forall in H4. apply (H4 x). apply (in_map fst) in Hi. exact Hi.
+      + exact H3.
+  Qed.
+
+  Lemma build_apos_notin : forall l x, snd x <= max64 -> Forall (fun y : id => snd y <= max64) (map fst l) ->
+    ~ In x (map fst l) -> PositiveMap.find (key x) (build_apos l) = None.
+  Proof.
+    induction l as [|[x0 p0] r IH]; intros x Hx Hf Hn; [apply PositiveMap.gempty|].
+    simpl in *. inversion Hf; subst. rewrite PositiveMap.gso.
+    - apply IH; [assumption|assumption|]. intros H; apply Hn; right; exact H.
+    - intros E. apply key_inj in E; [|assumption|assumption]. apply Hn. left. symmetry; exact E.
+  Qed.
+
+  Lemma layout_ids : forall f, map fst (layout_positions 0 (blocks_of f)) = map fst (f_docs f).
+  Proof. intros f. rewrite fst_layout_positions. unfold blocks_of. rewrite split_blocks_concat. reflexivity. Qed.
+
+  Lemma docs_rids : forall l, docs_wf l -> Forall (fun y : id => snd y <= max64) (map fst l).
+  Proof.
+    intros l [_ H]. apply Forall_forall. intros y Hy. apply in_map_iff in Hy. destruct Hy as [e [E He]].
+    rewrite Forall_forall in H. subst y. apply (H e He).
+  Qed.
+
+  (* every stored document has a packed position under its ID, and the file holds it there *)
+  Lemma stored_pos : forall f x d, docs_wf (f_docs f) -> layout_wf f -> In (x, d) (f_docs f) ->
+    exists b o blk, b < N.of_nat (length (blocks_of f)) /\ b < two32 /\ o <= max_doc_offset /\
+      PositiveMap.find (key x) (apos_of f) = Some (raw_pos b o) /\
+      nth_error (blocks_of f) (N.to_nat b) = Some blk /\ assoc o (cells_from 0 blk) = Some d.
+  Proof.
+    intros f x d Hw [Hl1 Hl2] Hi.
+    assert (Hc : In (x, d) (concat (blocks_of f))) by (unfold blocks_of; rewrite split_blocks_concat; exact Hi).
+    apply in_concat in Hc. destruct Hc as [blk [Hb Hx]].
+    destruct (In_nth_error _ _ Hb) as [bi Hbi].
+    destruct (block_in (N.of_nat bi) blk 0 x d Hx) as [o [A [B [_ C]]]].
+    assert (Hlen : (bi < length (blocks_of f))%nat) by (apply nth_error_Some; congruence).
+    rewrite Forall_forall in Hl1. specialize (Hl1 blk Hb).
+    exists (N.of_nat bi), o, blk. split; [lia|]. split; [lia|]. split; [lia|].
+    split; [|split; [rewrite Nat2N.id; exact Hbi|exact B]].
+    unfold apos_of. apply build_apos_in.
+    - rewrite layout_ids. apply Hw.
+    - rewrite layout_ids. apply docs_rids. exact Hw.
+    - apply (layout_in (blocks_of f) 0 bi blk); [exact Hbi|]. rewrite N.add_0_l. exact A.
+  Qed.
+
+  Lemma absent_pos : forall f x, docs_wf (f_docs f) -> snd x <= max64 -> lookup f x = None ->
+    PositiveMap.find (key x) (apos_of f) = None.
+  Proof.
+    intros f x Hw Hx Hl. unfold apos_of. apply build_apos_notin; [exact Hx| |].
+    - rewrite layout_ids. apply docs_rids. exact Hw.
+    - rewrite layout_ids. apply lookup_docs_none. exact Hl.
+  Qed.
+
+  Lemma blocks_file : forall f b bo, nth_error (p_boffs (phys_of f)) b = Some bo ->
+    exists blk, nth_error (blocks_of f) b = Some blk /\
+                assoc bo (p_file (phys_of f)) = Some (cells_from 0 blk).
+  Proof.
+    intros f b bo H. unfold phys_of in *. cbn [p_boffs p_file] in *.
+    assert (Hlen : (b < length (blocks_of f))%nat).
+    { rewrite <- (block_offsets_length (blocks_of f) 0). apply nth_error_Some. congruence. }
+    destruct (nth_error (blocks_of f) b) as [blk|] eqn:E; [|apply nth_error_None in E; lia].
+    destruct (block_at (blocks_of f) 0 b blk E) as [bo' [A [B _]]].
+    rewrite A in H. inversion H; subst bo'. exists blk. split; [reflexivity|exact B].
+  Qed.
+End Assumed.
